@@ -864,6 +864,12 @@ where
     ///   4. fsync once — advance durable_index, wake WaitDurable callers.
     ///
     /// Safety-net timer fires after `idle_flush_interval_ms` of inactivity.
+    /// Verification hook (feature `verif-hooks`): read-only view of the allocation cursor.
+    #[cfg(feature = "verif-hooks")]
+    pub fn verif_next_id(&self) -> u64 {
+        self.next_id.load(Ordering::Acquire)
+    }
+
     /// Verification hook (feature `verif-hooks`): same as `start()` but instead of spawning
     /// the `raft-io` OS thread with its own runtime, returns the very same `batch_processor`
     /// future for the caller to drive on its own (deterministic) runtime.
